@@ -6,5 +6,6 @@ Chain2 == { <<{2}, {}>> }
 \* N = 3: a shared subtree (1 -> 2 -> 3, 1 -> 3) and two roots over one child
 Dags3 == { <<{2, 3}, {3}, {}>>, <<{3}, {3}, {}>> }
 \* N = 4: diamond, chain, two roots over a shared subtree
+Shared3 == { <<{2, 3}, {3}, {}>> }
 Dags4 == { <<{2, 3}, {4}, {4}, {}>>, <<{2}, {3}, {4}, {}>>, <<{3}, {3}, {4}, {}>> }
 =============================================================================
